@@ -470,7 +470,7 @@ fn run(op: &Value) -> Value {
             use std::sync::{Arc, Mutex};
             use verif_service::gen::p::{Gsvc, GsvcClient, GsvcEndpoints};
             type Items = std::vec::IntoIter<Result<bytes::Bytes, conjure_error::Error>>;
-            struct H(Arc<Mutex<Vec<Value>>>, String, Option<String>);
+            struct H(Arc<Mutex<Vec<Value>>>, String, Option<String>, Vec<i32>);
             impl Gsvc for H {
                 fn g1(&self, auth_: BearerToken, path_arg: i32, query_arg: String, header_arg: i32) -> Result<(), conjure_error::Error> {
                     self.0.lock().unwrap().push(json!({"endpoint": "g1", "path_arg": path_arg, "query_arg": tohex(query_arg.as_bytes()), "header_arg": header_arg, "token": auth_.as_str()}));
@@ -491,6 +491,10 @@ fn run(op: &Value) -> Value {
                 fn g5(&self, tok: BearerToken, qt: BearerToken) -> Result<(), conjure_error::Error> {
                     self.0.lock().unwrap().push(json!({"endpoint": "g5", "tok": tok.as_str(), "qt": qt.as_str()}));
                     Ok(())
+                }
+                fn g7(&self) -> Result<verif_service::gen::p::IntListAlias, conjure_error::Error> {
+                    self.0.lock().unwrap().push(json!({"endpoint": "g7"}));
+                    Ok(verif_service::gen::p::IntListAlias(self.3.clone()))
                 }
                 fn g6(&self, lst: Vec<i32>, sset: std::collections::BTreeSet<String>, q: String) -> Result<(), conjure_error::Error> {
                     self.0.lock().unwrap().push(json!({"endpoint": "g6", "lst_arg": lst, "set_arg": sset.iter().map(|x| tohex(x.as_bytes())).collect::<Vec<_>>(), "q_arg": tohex(q.as_bytes())}));
@@ -549,6 +553,7 @@ fn run(op: &Value) -> Value {
                 async fn g4(&self, set_arg: std::collections::BTreeSet<String>, opt_body: Option<String>) -> Result<Option<String>, conjure_error::Error> { Gsvc::g4(&self.0, set_arg, opt_body) }
                 async fn g5(&self, tok: BearerToken, qt: BearerToken) -> Result<(), conjure_error::Error> { Gsvc::g5(&self.0, tok, qt) }
                 async fn g6(&self, lst: Vec<i32>, sset: std::collections::BTreeSet<String>, q: String) -> Result<(), conjure_error::Error> { Gsvc::g6(&self.0, lst, sset, q) }
+                async fn g7(&self) -> Result<verif_service::gen::p::IntListAlias, conjure_error::Error> { Gsvc::g7(&self.0) }
             }
             type AItems = futures::stream::Iter<std::vec::IntoIter<Result<bytes::Bytes, conjure_error::Error>>>;
             struct ALoop(Vec<conjure_http::server::BoxAsyncEndpoint<'static, AItems, Vec<u8>>>);
@@ -595,7 +600,8 @@ fn run(op: &Value) -> Value {
             let calls = Arc::new(Mutex::new(vec![]));
             let ret = String::from_utf8(hex(op["ret"].as_str().unwrap_or(""))).unwrap_or_default();
             let ret_opt = op["ret_opt"].as_str().map(|h| String::from_utf8(hex(h)).unwrap_or_default());
-            let svc = GsvcEndpoints::new(H(calls.clone(), ret, ret_opt));
+            let ret_list: Vec<i32> = op["ret_list"].as_array().map(|a| a.iter().map(|v| v.as_i64().unwrap() as i32).collect()).unwrap_or_default();
+            let svc = GsvcEndpoints::new(H(calls.clone(), ret, ret_opt, ret_list.clone()));
             let rt = Arc::new(ConjureRuntime::new());
             let s = |k: &str| String::from_utf8(hex(op[k].as_str().unwrap_or(""))).unwrap_or_default();
             let tok = |k: &str| BearerToken::new(op[k].as_str().unwrap_or("t")).unwrap();
@@ -609,6 +615,7 @@ fn run(op: &Value) -> Value {
                 }
                 "g3" => client.g3(&s("body_arg")).map(|v| Value::String(tohex(v.as_bytes()))),
                 "g5" => client.g5(&tok("tok"), &tok("qt")).map(|_| Value::Null),
+                "g7" => client.g7().map(|v| json!(v.0)),
                 "g6" => {
                     let lst: Vec<i32> = op["lst_arg"].as_array().map(|a| a.iter().map(|v| v.as_i64().unwrap() as i32).collect()).unwrap_or_default();
                     let set: std::collections::BTreeSet<String> = op["set_arg"].as_array().map(|a| a.iter().map(|v| String::from_utf8(hex(v.as_str().unwrap())).unwrap_or_default()).collect()).unwrap_or_default();
@@ -624,7 +631,7 @@ fn run(op: &Value) -> Value {
             let r = if op["async_server"].as_bool().unwrap_or(false) {
                 let ret_opt2 = op["ret_opt"].as_str().map(|h| String::from_utf8(hex(h)).unwrap_or_default());
                 let ret2 = String::from_utf8(hex(op["ret"].as_str().unwrap_or(""))).unwrap_or_default();
-                let asvc = AsyncGsvcEndpoints::new(AH(H(calls.clone(), ret2, ret_opt2)));
+                let asvc = AsyncGsvcEndpoints::new(AH(H(calls.clone(), ret2, ret_opt2, ret_list.clone())));
                 drive!(<GsvcClient<ALoop> as ClientService<ALoop>>::new(ALoop(AsyncService::endpoints(&asvc, &rt))))
             } else {
                 drive!(<GsvcClient<Loop> as ClientService<Loop>>::new(Loop(Service::endpoints(&svc, &rt))))
@@ -686,6 +693,7 @@ fn run(op: &Value) -> Value {
                 "g1" => client.g1(&tok, 1, "q", 2).map(|_| Value::Null),
                 "g3" => client.g3("b").map(|v| Value::String(tohex(v.as_bytes()))),
                 "g4" => client.g4(&std::collections::BTreeSet::new(), None).map(|v| v.map(|x| Value::String(tohex(x.as_bytes()))).unwrap_or(Value::Null)),
+                "g7" => client.g7().map(|v| json!(v.0)),
                 _ => return json!({"error": "endpoint"}),
             };
             match r { Ok(v) => json!({"ok": true, "returned": v}), Err(e) => json!({"ok": false, "cause": e.cause().to_string()}) }
